@@ -14,6 +14,8 @@ use zip::ZipWriter;
 pub enum Base {
     Written(Program),
     Foreign(ArchiveSpec),
+    /// archive written by CPython's zipfile (seekable or unseekable sink, force_zip64, prefix)
+    CPython(super::c03::PySpec),
 }
 #[derive(Clone, Debug, Serialize, Deserialize, Hash)]
 pub struct Round {
@@ -97,13 +99,22 @@ fn check(h: &History, info: &mut Info) -> Result<(), String> {
                 .collect();
             (b.bytes, m, s.comment.clone())
         }
+        Base::CPython(s) => {
+            let b = super::c03::py_produce(s)?;
+            let m = s
+                .entries
+                .iter()
+                .map(|e| MEntry { name: e.name.clone(), content: Some(e.content.expand()), method: e.method, dos: super::c03::py_dos(e.date_time), mode: model_mode((e.create_system as u16) << 8, e.external_attr), password: None })
+                .collect();
+            (b, m, s.comment.clone())
+        }
     };
     // sanity: the base itself reads as modelled (otherwise it is C01/C03's business)
     let (o, c) = observe(&bytes, &model).map_err(|e| format!("harness: base archive {e}"))?;
     if o != model || c != comment {
         return Err("harness: base archive does not read as modelled".into());
     }
-    info.nontrivial = matches!(h.base, Base::Foreign(_)) || (h.rounds.len() >= 2 && h.rounds.iter().any(|r| gen::entry_count(&r.program) > 0));
+    info.nontrivial = matches!(h.base, Base::Foreign(_) | Base::CPython(_)) || (h.rounds.len() >= 2 && h.rounds.iter().any(|r| gen::entry_count(&r.program) > 0));
     // ---- rounds
     for (ri, r) in h.rounds.iter().enumerate() {
         let before = bytes.clone();
@@ -258,7 +269,7 @@ fn check_big(c: &Big) -> Result<(), String> {
 }
 
 pub fn run(ctx: &mut Ctx) {
-    ctx.rule("history = base x 0..R rounds of {new_append; 0..3 new entries of any kind/method incl. extra data, aligned, ZipCrypto; optional comment change; finish or drop}. Bases: archives from this writer (C01 programs) and from the independent builder (data descriptors, forced ZIP64 fields and end records, junk prefix, CP437 names, DOS attributes, file comments, unsupported methods, shuffled central order, gaps). After every round the crate reader and the independent (lenient) parser must see model = previous entries (name, content, method, timestamp, unix mode) followed by the new ones, and the archive comment unless replaced. big_bases: crate-written bases of 65534/65535 (thorough: 65533..70000) entries, bare or behind 777 prepended bytes (offsets relative to the archive start), x append rounds {[0],[1],[2,0],[1,1,1]} crossing the 16-bit entry-count limit. Non-trivial = foreign base, or >=2 rounds with at least one non-empty round.");
+    ctx.rule("history = base x 0..R rounds of {new_append; 0..3 new entries of any kind/method incl. extra data, aligned, ZipCrypto; optional comment change; finish or drop}. Bases: archives from this writer (C01 programs) and from the independent builder (data descriptors, forced ZIP64 fields and end records, junk prefix, CP437 names, DOS attributes, file comments, unsupported methods, shuffled central order, gaps) and from CPython zipfile (driver cpython_bases: seekable/unseekable sinks i.e. data descriptors, force_zip64, prepended data, cp437/UTF-8 names, DOS/Unix systems). After every round the crate reader and the independent (lenient) parser must see model = previous entries (name, content, method, timestamp, unix mode) followed by the new ones, and the archive comment unless replaced. big_bases: crate-written bases of 65534/65535 (thorough: 65533..70000) entries, bare or behind 777 prepended bytes (offsets relative to the archive start), x append rounds {[0],[1],[2,0],[1,1,1]} crossing the 16-bit entry-count limit. Non-trivial = foreign base, or >=2 rounds with at least one non-empty round.");
     ctx.assume("file comments and extra fields of existing entries are not part of the claim (the property lists order, names, contents, methods, timestamps, modes, archive comment)");
     // entry counts around 65535/65536, with and without prepended data
     let bases: Vec<u32> = ctx.q(vec![65534, 65535], vec![65533, 65534, 65535, 65536, 70000]);
@@ -283,6 +294,29 @@ pub fn run(ctx: &mut Ctx) {
             }
         },
     );
+    let npy = ctx.q(200, 3000);
+    ctx.explore::<History>(
+        "cpython_bases",
+        npy,
+        &|| {
+            let round = (gen::program(3, 5000, true, false), prop_oneof![3 => Just(false), 1 => Just(true)]).prop_map(|(program, by_drop)| Round { program: gen::tame(program), by_drop });
+            (super::c03::py_spec(), proptest::collection::vec(round, 1..=3)).prop_map(|(s, rounds)| History { base: Base::CPython(s), rounds }).boxed()
+        },
+        &|h: &History, info: &mut Info| {
+            info.label("base:cpython");
+            if let Base::CPython(s) = &h.base {
+                info.label_if(s.streaming, "base:data-descriptors");
+                info.label_if(s.prefix_len > 0, "base:prefixed");
+                info.label_if(s.entries.iter().any(|e| e.force_zip64), "base:force_zip64");
+            }
+            match catch(|| check(h, info)) {
+                Ok(Ok(())) => Verdict::Pass,
+                Ok(Err(m)) if m.starts_with("KNOWN:append-leaves-stale-tail") => Verdict::Known("append-leaves-stale-tail", m),
+                Ok(Err(m)) => Verdict::Fail(m),
+                Err(p) => Verdict::Fail(format!("PANIC: {p}")),
+            }
+        },
+    );
     let n = ctx.q(6000, 60000);
     let rmax = ctx.q(4usize, 8);
     ctx.explore::<History>(
@@ -296,6 +330,7 @@ pub fn run(ctx: &mut Ctx) {
             info.label(match &h.base {
                 Base::Written(_) => "base:crate-written",
                 Base::Foreign(_) => "base:foreign",
+                Base::CPython(_) => "base:cpython",
             });
             if let Base::Foreign(s) = &h.base {
                 info.label_if(s.prefix.len() > 0, "base:prefixed");
